@@ -293,6 +293,14 @@ fn judge_elems<T: Copy + PartialOrd + Debug + Send + Sync>(ty: &'static str, dat
         let permuted: Vec<T> = p.iter().map(|i| data[*i]).collect();
         check("ci", call(|| quantile::ci(c, &permuted, q)), l, Some(p));
         l.count("permutations judged");
+        // the same data behind views that do not announce their length (size_hint lower bound 0 resp. n/2)
+        {
+            let lazy = crate::lazy::Lazy(permuted.clone());
+            let head = crate::lazy::HeadKnown(permuted.clone(), n / 2);
+            check("ci(view of unknown length)", call(|| quantile::ci(c, &lazy, q)), l, Some(p));
+            check("ci(view announcing half its length)", call(|| quantile::ci(c, &head, q)), l, Some(p));
+            l.count("views of unknown length judged");
+        }
         // fixed-capacity variants: CAP = n, n+1, 64, 1024 where instantiated
         for cap in [n, n + 1, 64, 1024] {
             if cap < n {
@@ -302,6 +310,10 @@ fn judge_elems<T: Copy + PartialOrd + Debug + Send + Sync>(ty: &'static str, dat
             if let Some(g) = got {
                 check("ci_max_size", g, l, Some(p));
                 l.count("fixed-capacity calls judged");
+            }
+            let lazy = crate::lazy::Lazy(permuted.clone());
+            if let Some(g) = with_cap!(cap, c, &lazy, q, T, [4, 5, 6, 7, 8, 9, 16, 17, 64, 1024]) {
+                check("ci_max_size(view of unknown length)", g, l, Some(p));
             }
         }
     }
@@ -456,8 +468,8 @@ pub fn run(run: &Arc<Run>) {
     let nmax: usize = run.cfg.by(300, 3000);
     let levels = level_grid(seed, run.cfg.by(2, 8));
     run.set_rule(format!(
-        "(i) rank sweep, exhaustive in n: 0 <= n <= {}, q-grid per n = all half-integers j/(2n) (where round flips; strided for large n in the quick tier), j/n ± 1e-12 (where floor flips), fixed and seeded quantiles, invalid q (<=0, >=1, NaN, ±inf), {} levels x 3 kinds, through ci_indices and Stats::new(n).ci; \
-         oracle = own Wilson roots + ambiguity sets for round/floor within 1e-9 of a boundary. (ii) element sweep: all permutations of multisets of size 4..6 (7 thorough) over a 4-symbol alphabet and random permutations of random multisets with ties up to 1024, for i32, u8, f64 (±0), char, &str, String; entry points ci, ci_sorted_unchecked, ci_max_size::<CAP> (CAP in n, n+1, 64, 1024). \
+        "(i) rank sweep, exhaustive in n: 0 <= n <= {} plus 8 populations in [2^32-1, 2^40], q-grid per n = all half-integers j/(2n) (where round flips; strided for large n in the quick tier), j/n ± 1e-12 (where floor flips), fixed and seeded quantiles, invalid q (<=0, >=1, NaN, ±inf), {} levels x 3 kinds, through ci_indices and Stats::new(n).ci; \
+         oracle = own Wilson roots + ambiguity sets for round/floor within 1e-9 of a boundary. (ii) element sweep: all permutations of multisets of size 4..6 (7 thorough) over a 4-symbol alphabet and random permutations of random multisets with ties up to 1024, for i32, u8, f64 (±0), char, &str, String; entry points ci, ci_sorted_unchecked, ci_max_size::<CAP> (CAP in n, n+1, 64, 1024); ci / ci_max_size also through user-defined views whose iterators announce 0 resp. half of their length. \
          non-trivial = admissible (n,q,confidence) resp. each data set; distinct = their fingerprints.",
         nmax,
         levels.len()
@@ -480,6 +492,13 @@ pub fn run(run: &Arc<Run>) {
         return;
     }
     run.par(nmax as u64 + 1, |i, l| judge_n(nmax - i as usize, &levels, seed, !quick && (nmax - i as usize) <= 1000, l));
+    // populations beyond 32 bits (running Stats merged over a long campaign; index-only entry points):
+    // the rank arithmetic must not narrow the count. 2^40 keeps the oracle's own p*n error below 1e-2.
+    let huge: Vec<usize> = vec![(1 << 32) - 1, 1 << 32, (1 << 32) + 1, (1 << 32) + (1 << 31), (1 << 33) + 12345, 10_000_000_000, (1 << 36) + 7, 1 << 40];
+    run.par(huge.len() as u64, |i, l| {
+        l.count("population >= 2^32 judged");
+        judge_n(huge[i as usize] + (seed % 5) as usize * (i as usize % 2), &levels, seed, false, l)
+    });
     let ne = run.cfg.by(3_000u64, 60_000);
     run.par(ne, |i, l| elem_case(seed, i, quick, l));
     if !quick {
@@ -495,6 +514,8 @@ pub fn run(run: &Arc<Run>) {
         "ambiguous_rank_cases",
         "permutations judged",
         "fixed-capacity calls judged",
+        "views of unknown length judged",
+        "population >= 2^32 judged",
         "large multiset with ties",
         "elements:i32",
         "elements:u8",
